@@ -1,7 +1,5 @@
 //! Shared by C06 and C07 (the Luau-lowering rules): rule correspondence + execution oracle as in
 //! `rulecheck.rs`, extended with
-//!  * the table of truthy verdicts of the REAL `Evaluator` that the Lean model of
-//!    `remove_if_expression` takes as a parameter (the static evaluator is C08's subject),
 //!  * the hypothesis `H` of the partial theorems (`c06.hyp`): programs outside `H` are listed
 //!    defect regions — an oracle failure there is counted, not reported,
 //!  * an INDEPENDENT feature census over the wire S-expression of the real output tree (a plain
@@ -11,15 +9,13 @@ use crate::exec;
 use crate::model::{hex, Model};
 use crate::report::{Report, Violation};
 use crate::rulecheck::{self, CaseResult};
-use darklua_core::process::Evaluator;
 use darklua_core::rules::Rule;
 use serde_json::json;
-use std::collections::BTreeSet;
 
 pub const RULES: [&str; 9] = [
+    "remove_continue",
     "remove_types",
     "remove_compound_assignment",
-    "remove_continue",
     "remove_if_expression",
     "remove_interpolated_string",
     "remove_floor_division",
@@ -33,53 +29,6 @@ fn head_is(s: &Sexp, name: &str) -> bool {
         Sexp::List(items) => matches!(items.first(), Some(Sexp::Atom(a)) if a == name),
         _ => false,
     }
-}
-
-/// every `(ifx c t ((c t)*) e)` node: the branch results `t`
-fn collect_if_results<'a>(s: &'a Sexp, out: &mut Vec<&'a Sexp>) {
-    if let Sexp::List(items) = s {
-        if head_is(s, "ifx") && items.len() == 5 {
-            out.push(&items[2]);
-            if let Sexp::List(elifs) = &items[3] {
-                for pair in elifs {
-                    if let Sexp::List(p) = pair {
-                        if p.len() == 2 {
-                            out.push(&p[1]);
-                        }
-                    }
-                }
-            }
-        }
-        for item in items {
-            collect_if_results(item, out);
-        }
-    }
-}
-
-/// `(e1 e2 …)`: the if-expression branch results on which the REAL static evaluator answers
-/// `is_truthy() == Some(true)`
-pub fn truthy_table(block_sexp: &str) -> String {
-    let tree = match Sexp::parse(block_sexp) {
-        Ok(t) => t,
-        Err(_) => return "()".to_owned(),
-    };
-    let mut results = Vec::new();
-    collect_if_results(&tree, &mut results);
-    let evaluator = Evaluator::default();
-    let mut seen = BTreeSet::new();
-    let mut items = Vec::new();
-    for r in results {
-        let text = r.to_string();
-        if !seen.insert(text.clone()) {
-            continue;
-        }
-        if let Ok(expr) = astsexp::tree_to_expr(r) {
-            if evaluator.evaluate(&expr).is_truthy() == Some(true) {
-                items.push(text);
-            }
-        }
-    }
-    format!("({})", items.join(" "))
 }
 
 /// Independent census over the wire tree: occurrences of the construct each rule targets.
@@ -148,8 +97,8 @@ pub struct LuauCase<'a> {
 }
 
 fn model_rule(model: &mut Model, model_name: &str, sexp0: &str) -> String {
-    let table = if model_name == "remove_if_expression" { truthy_table(sexp0) } else { "()".to_owned() };
-    model.ask(&format!("c06.rule {} {} {}", hex(model_name.as_bytes()), sexp0, table))
+    // (the verdicts of the static evaluator are computed by the Lean model of the evaluator now)
+    model.ask(&format!("c06.rule {} {}", hex(model_name.as_bytes()), sexp0))
 }
 
 fn lean_hypothesis(model: &mut Model, model_name: &str, sexp0: &str) -> bool {
